@@ -1,5 +1,6 @@
 import XtModel.Props.C09
 import XtModel.Props.Json
+import XtModel.Props.C18
 
 /-!
 # C10 — xt recognises its own output without -f
@@ -135,6 +136,65 @@ theorem own_toml_excluded_when_json_accepts (b : Nat) (text : List Nat) (hb : ma
   rw [hm, hj]
   simp [detectFormat, decideList]
 
+/-! ## MessagePack -/
+
+/-- Is a marker (in the MessagePack slice's table) an array or map header? -/
+def collMarker : Xt.Msgpack.Marker → Bool
+  | .fixArray _ | .array16 | .array32 | .fixMap _ | .map16 | .map32 => true
+  | _ => false
+
+set_option maxRecDepth 100000 in
+/-- The two marker tables (the detection model's `Marker::from_u8` and the size
+calculator model's) agree on which bytes start a collection — all 256 bytes. -/
+theorem marker_tables_agree :
+    ∀ b, b < 256 → markerTest b = collMarker (Xt.Msgpack.Marker.ofByte b) := by
+  decide
+
+theorem coll_lt (b : Nat) (h : collMarker (Xt.Msgpack.Marker.ofByte b) = true) : b < 256 := by
+  by_cases hb : b < 256
+  · exact hb
+  · exfalso
+    unfold Xt.Msgpack.Marker.ofByte at h
+    repeat (rw [if_neg (by omega)] at h)
+    simp [collMarker] at h
+
+/-- The class of the MessagePack detection trial on concrete bytes: the Lean
+model of rmp_serde's decoder (depth limit 1024) feeding C09's classification. -/
+def msgpackResOf (bs : List Nat) : MsgpackRes :=
+  match Xt.Msgpack.decode bs Xt.Msgpack.depthLimit with
+  | .ok _ => .ok
+  | .error _ => .other
+
+/-- A MessagePack value whose root is a map or an array. -/
+def isCollM : Xt.Msgpack.MVal → Bool
+  | .arr _ | .map _ => true
+  | _ => false
+
+/-- **xt's MessagePack output is detected as MessagePack** — for every
+well-formed collection-rooted first document nested less than 1024 deep, whatever
+follows it (further documents) and whatever the later trials would answer: the
+first byte is a collection marker and the decoder reads the first value. -/
+theorem own_msgpack_detected (v : Xt.Msgpack.MVal) (rest : List Nat) (hroot : isCollM v = true)
+    (hwf : v.WF false) (hn : v.nesting < Xt.Msgpack.depthLimit) (j y t : Trial) :
+    detectFormat (msgpackMatches (.ok (Xt.Msgpack.encode v ++ rest))
+      (msgpackResOf (Xt.Msgpack.encode v ++ rest))) j y t = .fmt .msgpack := by
+  have hdec : Xt.Msgpack.decode (Xt.Msgpack.encode v ++ rest) Xt.Msgpack.depthLimit = .ok (v, rest) :=
+    Xt.Props.C18.msgpack_roundtrip false v _ rest hwf hn
+  have hres : msgpackResOf (Xt.Msgpack.encode v ++ rest) = .ok := by simp [msgpackResOf, hdec]
+  have hfirst : ∃ b t', Xt.Msgpack.encode v = b :: t' ∧ collMarker (Xt.Msgpack.Marker.ofByte b) = true := by
+    cases v with
+    | arr xs =>
+      obtain ⟨b, t', hb, hm⟩ := Xt.Props.C18.own_msgpack_first_byte.1 xs
+      exact ⟨b, t', hb, by rcases hm with h | h | h <;> simp [h, collMarker]⟩
+    | map kvs =>
+      obtain ⟨b, t', hb, hm⟩ := Xt.Props.C18.own_msgpack_first_byte.2 kvs
+      exact ⟨b, t', hb, by rcases hm with h | h | h <;> simp [h, collMarker]⟩
+    | _ => simp [isCollM] at hroot
+  obtain ⟨b, t', hb, hm⟩ := hfirst
+  have hmt : markerTest b = true := by rw [marker_tables_agree b (coll_lt b hm)]; exact hm
+  rw [hres, hb]
+  simp [msgpackMatches, hmt, detectFormat, decideList]
+
 /-! Non-vacuity -/
 example := own_json_detected markerFloat (.obj [([0x61], .arr [.int 1])]) [.arr []] rfl
   (by decide) .reader (by decide) .other .noMatch .ioErr
@@ -147,6 +207,10 @@ example : trialReader [0x31, 0x20, 0x3D, 0x20, 0x32, 0x0A] = true := by   -- `1 
 #print axioms own_yaml_detected
 #print axioms own_toml_detected_partial
 #print axioms own_toml_excluded_when_json_accepts
+#print axioms own_msgpack_detected
+#print axioms marker_tables_agree
+#print axioms Xt.Props.C18.own_msgpack_first_byte
+#print axioms Xt.Props.C18.msgpack_roundtrip
 #print axioms Xt.Props.Json.json_own_output_detected
 #print axioms Xt.Props.Json.json_dash_not_value
 #print axioms Xt.Props.Json.json_first_byte
